@@ -16,14 +16,19 @@ FLAGS_ALL = dict(FLAGS, numinst='-numinst', o='-o', mp='-mp')
 def argv_of(rec, outdir):
     nm = rec.get('names') or FLAGS_ALL        # the spelling of every option as exported by the specification
     a = [nm['numinst'], str(rec['numinst']), nm['o'], outdir, nm['mp'], rec['mp']]
+    # second presentation (tied to the long spelling): whole-valued probabilities / skews written without a decimal
+    # point, as the README's own examples do ("-skew 5")
+
+    def fl(x):
+        return str(int(x)) if rec.get('spell') == 'long' and float(x).is_integer() else repr(x)
     for o in sorted(rec['given']):
         v = rec['v'][o]
         if o == 'twopl':
             a.append(nm[o])
         elif o in ('t1', 't2'):
-            a += [nm[o], repr(v / 20.0 + (rec.get('eps') or {}).get(o, 0) * 2.0 ** -40)]
+            a += [nm[o], fl(v / 20.0 + (rec.get('eps') or {}).get(o, 0) * 2.0 ** -40)]
         elif o == 'skew':
-            a += [nm[o], repr(v / 2.0)]
+            a += [nm[o], fl(v / 2.0)]
         else:
             a += [nm[o], str(v)]
     return a
